@@ -21,7 +21,7 @@ type C14Marker struct {
 	Inline bool   `json:"inline,omitempty"` // the marker call sits in a function literal that is written and called on this very line
 	First  int    `json:"first,omitempty"`  // multi-line statements: the innermost statement containing the call spans First..Last
 	Last   int    `json:"last,omitempty"`
-	Dead bool   `json:"dead,omitempty"` // in code that can never execute
+	Dead   bool   `json:"dead,omitempty"` // in code that can never execute
 }
 
 type C14Func struct {
@@ -53,8 +53,8 @@ type C14Meta struct {
 	Funcs    map[string]C14Func        `json:"funcs"`
 	LineFn   map[string]map[int]string `json:"lineFn"` // file -> line -> innermost function containing it
 	Planted  []C14Planted              `json:"planted,omitempty"`
-	RecFn    string                    `json:"recFn,omitempty"`    // frame-limit ladder: function, its recursive site
-	Files    map[string][]string       `json:"files"`              // file -> source lines (for column checks)
+	RecFn    string                    `json:"recFn,omitempty"` // frame-limit ladder: function, its recursive site
+	Files    map[string][]string       `json:"files"`           // file -> source lines (for column checks)
 	RootFile string                    `json:"rootFile"`
 }
 
@@ -196,7 +196,7 @@ func (b *c14b) markerStmt(file, fn, dvar string, indent int, dead bool) {
 	case 3:
 		b.emit(file, fn, b.v()+" := [1, "+call+", 3]", indent)
 	case 4:
-		b.emit(file, fn, b.v()+" := len([" + call + "]) + (true ? 1 : 2)", indent)
+		b.emit(file, fn, b.v()+" := len(["+call+"]) + (true ? 1 : 2)", indent)
 	case 5:
 		b.emit(file, fn, "for "+call+" < 0 {", indent)
 		b.emit(file, fn, "}", indent)
@@ -298,7 +298,9 @@ func (b *c14b) noise(file, fn string, indent int) {
 }
 
 func (b *c14b) planted(file, fn, dvar string, indent int) {
-	kinds := []string{"oob", "strlimit", "byteslimit", "illTyped", "notCallable", "oobSel", "strlimitFmt", "strlimitConv", "byteslimitConv", "sliceBad", "iterBad", "unaryBad", "complBad", "selBad", "immutableSet"}
+	kinds := []string{"oob", "strlimit", "byteslimit", "illTyped", "notCallable", "oobSel", "strlimitFmt", "strlimitConv", "byteslimitConv", "sliceBad", "iterBad", "unaryBad", "complBad", "selBad", "immutableSet",
+		// the operand of the failing operation is a plain variable (no call in the failing statement)
+		"iterVar", "unaryVar", "indexVar", "sliceVar"}
 	kind := kinds[b.r.Intn(len(kinds))]
 	b.emit(file, fn, "if mk.boom() == "+itoa(b.nextID+1)+" {", indent)
 	parr := b.v()
@@ -315,6 +317,24 @@ func (b *c14b) planted(file, fn, dvar string, indent int) {
 	id := b.marker(file, fn, nextLine, false)
 	call := "mk.mark(" + itoa(id) + ", " + dvar + ")"
 	switch kind {
+	case "iterVar", "unaryVar", "indexVar", "sliceVar":
+		// the marker call sits on a line of its own; the statement that fails is the next one
+		pv, px, pn := b.v(), b.v(), b.v()
+		b.emit(file, fn, pv+" := \"k\" + string("+call+")", indent+1)
+		b.emit(file, fn, px+" := [1, 2, 3]", indent+1)
+		b.emit(file, fn, pn+" := len("+pv+")", indent+1)
+		b.nextLineFix(file, fn, id)
+		switch kind {
+		case "iterVar":
+			b.emit(file, fn, "for "+b.v()+" in "+pn+" {", indent+1)
+			b.emit(file, fn, "}", indent+1)
+		case "unaryVar":
+			b.emit(file, fn, px+" = -"+pv, indent+1)
+		case "indexVar":
+			b.emit(file, fn, px+" = "+px+"["+pv+"]", indent+1)
+		default:
+			b.emit(file, fn, px+" = "+px+"[:"+pv+"]", indent+1)
+		}
 	case "oob":
 		b.emit(file, fn, parr+"["+call+" + 5] = 1", indent+1)
 	case "oobSel":
